@@ -110,6 +110,24 @@ fn nest(open: &str, close: &str, core: &str, d: usize) -> String {
     s
 }
 
+/// `S` -> `Sx` for every one-letter upper-case identifier outside strings
+fn mixed_case_type_names(body: &str) -> String {
+    let cs: Vec<char> = body.chars().collect();
+    let mut out = String::new();
+    let mut in_str = false;
+    for (i, c) in cs.iter().enumerate() {
+        out.push(*c);
+        if *c == '"' || *c == '\'' {
+            in_str = !in_str;
+        }
+        let word = |x: Option<&char>| x.map_or(false, |x| x.is_ascii_alphanumeric() || *x == '-' || *x == '&');
+        if !in_str && c.is_ascii_uppercase() && !(i > 0 && word(cs.get(i - 1))) && !word(cs.get(i + 1)) {
+            out.push('x');
+        }
+    }
+    out
+}
+
 impl Prop for C08 {
     type Case = Case;
     fn id(&self) -> &'static str {
@@ -560,6 +578,14 @@ impl Prop for C08 {
         ] {
             push("unsupported", format!("hostile:{lab}"), module(body), "both");
             push("unsupported", format!("hostile-bare:{lab}"), body.to_string(), "both");
+            // one-letter type names are lexically object class references too (`s S ::= { .. }` reads like an
+            // information object assignment): the same input with type names that contain a lower-case letter
+            if !body.contains("CLASS") {
+                let mixed = mixed_case_type_names(body);
+                if mixed != *body {
+                    push("unsupported", format!("hostile-mixed:{lab}"), module(&mixed), "both");
+                }
+            }
         }
         out
     }
